@@ -6,6 +6,8 @@ NOTE_ORD = ("Theorem is about the hand-written Gallina model for any number type
             "pymoo/NumPy dependencies enter as oracles whose contracts are validated per recorded call; tie to /repo = correspondence runs.")
 
 CHECKS = {
+    "C01": {"text": "Coq theorem over Q for the whole mating pipeline (selection -> mutation -> repair against the base vector -> crossover) and for DEM.do / DEX.do alone: any configuration, any in-box population, any draw stream in [0,1) => every trial vector is inside the box (zero-width ranges and bases on bounds included; base-in-box shown necessary by a refutation); + bit-exact correspondence of DifferentialVariant.do with the composed model, float box check on every offspring, PM as a validated oracle",
+            "note": NOTE_Q, "technique": "Coq proof (composition of the C09-C12 models, nra) + vm_compute correspondence"},
     "C11": {"text": "Coq theorem over Q for all matrices, bounds, strategies and draw streams (coordinatewise contract of the four repairs, two-pass order modelled as written) + bit-exact correspondence of the binary64 instance with dem.py on generated and scripted-draw cases",
             "note": NOTE_Q, "technique": "Coq proof (induction over the flattened matrix, lra/nra) + vm_compute correspondence"},
     "C12": {"text": "Coq theorems for every number type, crossover kind, CR, shape and draw stream: coordinatewise inheritance, at least one mutant coordinate, CR=1 => trial = mutant, CR=0 => exactly one coordinate, exponential mask = circular block whose length is the number of leading draws below CR; + bit-exact correspondence of DEX.do / cross_binomial / cross_exp with recorded and boundary-scripted draws",
